@@ -1,3 +1,4 @@
+import Varint.Bridge.RLE
 import Varint.Lemmas.PFOR
 import Varint.Lemmas.RLEH
 import Varint.Lemmas.Group
@@ -73,6 +74,23 @@ theorem rle_meta_true (xs : List Nat) :
     (∀ r ∈ RLE.runs xs, 1 ≤ r.1) ∧ RLE.size xs = (RLE.enc xs).length :=
   ⟨RLE.expand_runs xs, RLE.total_runs xs, RLE.runs_pos xs, (RLE.enc_length xs).symm⟩
 
+
+/-- **on the machine translation of `varintRLEEncode` / `varintRLEAnalyze`**: the metadata both functions write is
+    the truth about the data and the bytes: count = number of elements, runCount = number of maximal runs (the
+    analysis reports it as uniqueValues too), encodedSize = bytes the encoder really stores = what it returns -/
+theorem c_rle_meta_true (xs : List Nat) (hx : ∀ x ∈ xs, x < 2 ^ 64) (hn : xs.length < 2 ^ 59) (fuel : Nat)
+    (hf : xs.length + 2 ≤ fuel) :
+    ∃ n stores b,
+      Varint.Gen.C.rleEncode fuel (Varint.Bridge.Tagged.bufOf xs) xs.length true =
+        some (n, some xs.length, some (RLE.runs xs).length, some n, some 0, stores) ∧
+      Varint.Gen.C.rleAnalyze fuel (Varint.Bridge.Tagged.bufOf xs) xs.length =
+        some (b, some xs.length, some (RLE.runs xs).length, some n, some (RLE.runs xs).length) ∧
+      stores.length = n := by
+  refine ⟨(RLE.enc xs).length, Varint.Bridge.storesFrom 0 (RLE.enc xs),
+    if xs ≠ [] ∧ RLE.size xs < 8 * xs.length then 1 else 0,
+    Varint.Bridge.RLE.rleEncode_eq xs hx (by omega) true fuel hf, ?_, ?_⟩
+  · rw [Varint.Bridge.RLE.rleAnalyze_eq xs hx hn fuel (by omega), RLE.enc_length]; rfl
+  · rw [Varint.Bridge.storesFrom_length]
 
 /-- group: the self-measured size and per-field widths read from an encoding are the real ones -/
 theorem group_accessors_true (xs : List Nat) (h : Group.Ok xs) (rest : List Nat) :
